@@ -45,6 +45,12 @@ def items(tier):
                 out.append((sp, {"rule": "TSLACK", "auto_abs": aa, "max_time": F.seq_bound(sp) + 8}))
     for sp in fac:
         out.append((sp, {"rule": "TSLACK", "max_time": F.seq_bound(sp) + 8}))
+    # zero-work tasks (milestones done by workers): WORKING for one step, the allocated skills are subtracted all the same
+    for fl in list(F.flows(3, ("FS", "SS", "FF"), (0, 2)))[:: (3 if tier == "quick" else 1)]:
+        if all(t["work"] > 0 for t in fl["tasks"]):
+            continue
+        sp = F.with_teams(fl, "POOL2")
+        out.append((sp, {"rule": "TSLACK", "max_time": F.seq_bound(sp) + 8}))
     for fl in F.flows(3, ("FF", "SF", "FS"), (1, 2)):
         if any(k in ("FF", "SF") for _, _, k in fl["links"]):
             sp = dict(F.with_teams(fl, "DED"), order=[2, 1, 0])
